@@ -131,7 +131,7 @@ def shard_country(arg):
     from ..lib import IBAN as _IBAN
     toks = dims.token_dictionary()[:24 if quick else 120]
     for bi, base in enumerate(bases[:2 if quick else 6]):
-        for label, t in dims.whitespace_extremes(base):
+        for label, t in dims.whitespace_extremes(base, huge=(bi == 0 and cc in ("DE", "GB", "LC", "RU", "NO", "MT"))):
             check_text(rec, t, f"ws-extreme:{label}", full=True)
             rec.case("ws-extreme-valid", (cc, label, bi), {"label": label, "len": len(t), "base": base} if bi == 0 and label == "every-gap-space" else None)
             bad = t.replace(base[5], "-", 1) if base[5] in t else t
